@@ -121,7 +121,10 @@ def _check_zc_live(case):
         for stepS in (2, 3):
             t, step = ti / rate, stepS / rate
             w = mkwav(samples, width, rate)
-            guarded(w.findNearestZeroCrossing, t, step)
+            first = guarded(w.findNearestZeroCrossing, t, step)
+            if first[0] == "hang":
+                return cnt + 1, "hang", None, [Viol("non-termination", f"findNearestZeroCrossing({t},{step}) on samples {list(samples)} (width 2, rate 8) "
+                                                                       f"did not return within {WATCHDOG_S}s")]
             if edit[0] == "del":
                 call(w.deleteSegment, edit[1] / rate, edit[2] / rate)
             elif edit[0] == "ins":
@@ -138,6 +141,9 @@ def _check_zc_live(case):
             a = guarded(w.findNearestZeroCrossing, t, step)
             b = guarded(mkwav(cur, width, rate).findNearestZeroCrossing, t, step)
             cnt += 3
+            if a[0] == "hang" or b[0] == "hang":
+                return cnt, "hang", None, [Viol("non-termination", f"findNearestZeroCrossing({t},{step}) after the edit {edit} of samples {list(samples)} "
+                                                                   f"(current audio {cur}) did not return within {WATCHDOG_S}s")]
             ka = (a[0], a[1] if a[0] == "ok" else type(a[1]).__name__)
             kb = (b[0], b[1] if b[0] == "ok" else type(b[1]).__name__)
             if ka != kb:
